@@ -62,8 +62,23 @@ class LocalPipelineIo(PipelineIo):
         cdir = os.path.split(fpath)[0]
         os.makedirs(cdir, exist_ok=True)
 
-        with open(fpath, 'wb') as f:
-            shutil.copyfileobj(source, f)
+        # Write to a temporary sibling and rename it into place, so that an
+        # interrupted transfer never leaves a truncated item under the real
+        # name (and never clobbers a complete item from an earlier attempt).
+        tmp_path = f'{fpath}.tmp{os.getpid()}'
+
+        try:
+            with open(tmp_path, 'wb') as f:
+                shutil.copyfileobj(source, f)
+
+            os.replace(tmp_path, fpath)
+        except BaseException:
+            try:
+                os.remove(tmp_path)
+            except OSError:
+                pass
+
+            raise
 
     def list_items(self, *path):
         dpath = self._make_item_name(path)
